@@ -12,31 +12,44 @@ package main
 //      timestamps (transaction timestamps AND log dates) are given as the API receives them (text) and go through
 //      ledger.ParseTime, which converts them to UTC.
 //      The logs are built with the repo's own constructors, chained with Log.ChainLog, each entry is marshalled
-//      (json.Marshal), unmarshalled (ChainedLog.UnmarshalJSON), re-chained to the decoded predecessor, and pushed
-//      through the ledgerstore row (InsertLogs' encoding + Logs.ToCore).
+//      (json.Marshal), unmarshalled (ChainedLog.UnmarshalJSON), re-chained to the decoded predecessor, and written by the
+//      REAL ledgerstore.Store.InsertLogs into the table of logstore.go ("batches":[sizes] = how many entries per InsertLogs
+//      call, default one), from which every row is read back (Logs.ToCore) and looked up (GetLastLog, ReadLogWithIdempotencyKey).
 //   {"kind":"raw","json":text}           json.Unmarshal of arbitrary text into a ChainedLog
 //   {"kind":"time","s":text}             ledger.ParseTime, Format, UTC, the instant (Unix seconds, nanoseconds)
 //   {"kind":"sha","hex":bytes}           crypto/sha256
 //   {"kind":"v1","rows":[{"id","type","hash","date","data"}]}  excluded point: legacy rows through LogV1.ToLogsV2 + ToCore
 //   {"kind":"ikbytes","hex":bytes}       excluded point: an idempotency key that is not valid UTF-8 (HTTP header bytes)
+//   {"kind":"keybytes","hex":bytes,"pos":"key"|"address"}  observed point: a metadata key (or the account address) given as raw bytes in the path of
+//        DELETE /{ledger}/accounts/{address}/metadata/{key}: the request line
+//        goes through http.ReadRequest and the REAL v2 router (recording backend), then the key that reached the backend through a
+//        DELETE_METADATA log, the real InsertLogs and the row read back
 //
 // output: see execLogrt; everything that came out of a map is sorted, big integers are decimal strings,
 // times are [year,month,day,hour,min,sec,nanos,offsetSeconds] read in their own zone.
 
 import (
+	"bufio"
 	"bytes"
 	"crypto/sha256"
 	"encoding/hex"
 	"encoding/json"
 	"fmt"
 	"math/big"
+	"net/http"
+	"net/http/httptest"
 	"sort"
 	"strconv"
+	"strings"
 	"time"
+	"unicode/utf8"
 
 	ledger "github.com/formancehq/ledger/internal"
+	v2 "github.com/formancehq/ledger/internal/api/v2"
+	"github.com/formancehq/ledger/internal/opentelemetry/metrics"
+	"github.com/formancehq/stack/libs/go-libs/auth"
+	"github.com/formancehq/stack/libs/go-libs/health"
 	"github.com/formancehq/ledger/internal/storage/ledgerstore"
-	"github.com/formancehq/stack/libs/go-libs/bun/bunpaginate"
 	"github.com/formancehq/stack/libs/go-libs/metadata"
 )
 
@@ -224,10 +237,43 @@ func lrTx(r *rng, extremes bool) J {
 	return J{"postings": postings, "md": lrMeta(r), "ts": lrTimestamp(r, extremes), "ref": ref, "id": lrSmallID(r), "reverted": r.p(10)}
 }
 
+// an idempotency key as a client may send it (the Idempotency-Key header / the "ik" of a bulk element are not limited in length):
+// lengths around the width of the column (255 characters; bytes and characters differ for multi-byte alphabets), a UUID, one
+// character, keys made of several UUIDs or a URL; alphabets: ASCII, multi-byte letters (2, 3 and 4 bytes), and what a careless
+// quoting would trip over (quotes, backslashes, control characters other than NUL, SQL comment / COPY escape shapes)
+var lrKeyLens = []int{1, 2, 36, 100, 254, 255, 255, 256, 256, 257, 300, 300, 512, 1000}
+var lrKeyAlphabets = [][]string{
+	{"k", "e", "y", "0", "1", "-", "_", ":"},
+	{"0", "1", "2", "3", "4", "5", "6", "7", "8", "9", "a", "b", "c", "d", "e", "f", "-"},
+	{"é", "ü", "ж", "λ"},
+	{"日", "本", "語", "€"},
+	{"😀", "🚀", "𝄞"},
+	{"a", "é", "日", "😀", " "},
+	{"'", "\"", "\\", "a", "`", ";", "-", "-", "/", "*", "%", "_", "$", "?"},
+	{"\t", "\n", "\r", "\x01", "\x1b", "\x7f", "\\", ".", "N", "\u2028", "a"},
+	{"h", "t", "p", "s", ":", "/", ".", "?", "=", "&", "%", "2", "F", "x"},
+}
+
+func lrKey(r *rng) string {
+	n := lrKeyLens[r.n(len(lrKeyLens))]
+	if r.p(10) {
+		n = 1 + r.n(400)
+	}
+	al := lrKeyAlphabets[r.n(len(lrKeyAlphabets))]
+	var b strings.Builder
+	for i := 0; i < n; i++ {
+		b.WriteString(al[r.n(len(al))])
+	}
+	return b.String()
+}
+
 func lrLog(r *rng) J {
 	l := J{"ik": "", "date": lrNow(r)}
 	if r.p(45) {
 		l["ik"] = lrStr(r)
+		if r.p(30) {
+			l["ik"] = lrKey(r)
+		}
 	}
 	if r.p(3) { // a log date written with an offset (never produced: Now() is UTC): ParseTime hands it over in UTC like any other
 		l["date"] = lrTimestamp(r, false)
@@ -344,6 +390,11 @@ func genLogrt(r *rng, n int, tier string, emit func(J)) {
 	}})
 	emit(J{"kind": "ikbytes", "hex": "6b6579ff"})
 	emit(J{"kind": "ikbytes", "hex": "c328"})
+	emit(J{"kind": "keybytes", "hex": "61ff62"})     // a\xffb : not UTF-8, sent raw
+	emit(J{"kind": "keybytes", "hex": "61254646"})   // a%FF   : the same byte percent-encoded
+	emit(J{"kind": "keybytes", "hex": "c3a9"})       // é sent raw (valid UTF-8)
+	emit(J{"kind": "keybytes", "hex": "6b6579"})     // key
+	emit(J{"kind": "keybytes", "hex": "61254646", "pos": "address"})
 	for _, l := range []int{0, 1, 31, 32, 54, 55, 56, 57, 63, 64, 65, 118, 119, 120, 121, 127, 128, 129, 183, 184, 191, 192, 193, 1000} {
 		b := make([]byte, l)
 		for i := range b {
@@ -362,7 +413,20 @@ func genLogrt(r *rng, n int, tier string, emit func(J)) {
 			for k := 0; k < l; k++ {
 				logs = append(logs, lrLog(r))
 			}
-			emit(J{"kind": "chain", "logs": logs})
+			c := J{"kind": "chain", "logs": logs}
+			if l > 1 && r.p(50) { // how the entries reach InsertLogs: several per call, as the batcher hands them over
+				bs := []any{}
+				for left := l; left > 0; {
+					k := 1 + r.n(4)
+					if r.p(15) {
+						k = 1 + r.n(left)
+					}
+					bs = append(bs, k)
+					left -= k
+				}
+				c["batches"] = bs
+			}
+			emit(c)
 		case x < 85:
 			s := lrTimestamp(r, r.p(10))
 			if r.p(15) { // damage it
@@ -679,6 +743,11 @@ func lrDecode(text []byte) (back *ledger.ChainedLog, res J) {
 func lrChain(in J) J {
 	specs, _ := in["logs"].([]any)
 	entries := []any{}
+	type written struct {
+		e  J
+		cl *ledger.ChainedLog
+	}
+	var ws []written
 	var prev, prevBack *ledger.ChainedLog
 	for _, sa := range specs {
 		var log *ledger.Log
@@ -688,10 +757,11 @@ func lrChain(in J) J {
 		}
 		cl := log.ChainLog(prev)
 		e := J{"id": lrBigStr(cl.ID), "hash": hex.EncodeToString(cl.Hash), "dump": lrDump(cl)}
+		entries = append(entries, e)
+		ws = append(ws, written{e, cl})
 		text, err := json.Marshal(cl)
 		if err != nil {
 			e["marshal_error"] = err.Error()
-			entries = append(entries, e)
 			prev, prevBack = cl, cl
 			continue
 		}
@@ -707,31 +777,6 @@ func lrChain(in J) J {
 				e["remarshal_same"] = string(again) == string(text)
 			}
 		}
-		// the stored row: InsertLogs' encoding of the entry, then Logs.ToCore
-		e["row"] = lrGuard(func() J {
-			data, err := json.Marshal(cl.Data)
-			if err != nil {
-				return J{"error": err.Error()}
-			}
-			row := ledgerstore.Logs{Ledger: "l", ID: (*bunpaginate.BigInt)(cl.ID), Type: cl.Type.String(), Hash: cl.Hash,
-				Date: cl.Date, Data: data, IdempotencyKey: cl.IdempotencyKey}
-			core := row.ToCore()
-			re := core.Log.ChainLog(prev)
-			return J{"ok": lrDump(core), "rehash": hex.EncodeToString(re.Hash), "data": string(data)}
-		})
-		// the same row as PostgreSQL returns it: data through jsonb (keys re-ordered)
-		e["row_jsonb"] = lrGuard(func() J {
-			data, err := json.Marshal(cl.Data)
-			if err != nil {
-				return J{"error": err.Error()}
-			}
-			row := ledgerstore.Logs{Ledger: "l", ID: (*bunpaginate.BigInt)(cl.ID), Type: cl.Type.String(), Hash: cl.Hash,
-				Date: cl.Date, Data: lrJsonb(data), IdempotencyKey: cl.IdempotencyKey}
-			core := row.ToCore()
-			re := core.Log.ChainLog(prev)
-			return J{"ok": lrDump(core), "rehash": hex.EncodeToString(re.Hash)}
-		})
-		entries = append(entries, e)
 		prev = cl
 		if back != nil {
 			prevBack = back
@@ -739,7 +784,225 @@ func lrChain(in J) J {
 			prevBack = cl
 		}
 	}
+	lrStoreChain(in, func(k int) (J, *ledger.ChainedLog) { return ws[k].e, ws[k].cl }, len(ws))
 	return J{"entries": entries}
+}
+
+// lrStoreChain: the entries through the REAL ledgerstore.Store.InsertLogs into the table of logstore.go (in the batches the input
+// gives, default one call per entry), then every stored row read back: scanned into ledgerstore.Logs as a SELECT hands it over,
+// Logs.ToCore, hash recomputed over the PREVIOUS ROW read back the same way.  Then the store's own reads: GetLastLog after every
+// InsertLogs call, ReadLogWithIdempotencyKey for every key of the chain at the end.
+func lrStoreChain(in J, at func(int) (J, *ledger.ChainedLog), n int) {
+	s := lsOpen()
+	defer s.close()
+	var sizes []int
+	if b, ok := in["batches"].([]any); ok {
+		for _, x := range b {
+			if k := toInt(x); k > 0 {
+				sizes = append(sizes, k)
+			}
+		}
+	}
+	rowOf := make([]int, n) // entry -> index of its row, -1: not stored
+	for k := range rowOf {
+		rowOf[k] = -1
+	}
+	for k, b := 0, 0; k < n; b++ {
+		size := 1
+		if b < len(sizes) {
+			size = sizes[b]
+		}
+		if k+size > n {
+			size = n - k
+		}
+		batch := []*ledger.ChainedLog{}
+		for x := k; x < k+size; x++ {
+			_, cl := at(x)
+			batch = append(batch, cl)
+		}
+		before := s.t.n()
+		err := s.insert(batch...)
+		switch got := s.t.n() - before; {
+		case err != nil:
+			for x := k; x < k+size; x++ {
+				e, _ := at(x)
+				e["row"] = J{"error": err.Error()}
+			}
+		case got != size:
+			for x := k; x < k+size; x++ {
+				e, _ := at(x)
+				e["row"] = J{"error": fmt.Sprintf("InsertLogs of %d entries wrote %d rows", size, got)}
+			}
+		default:
+			for x := k; x < k+size; x++ {
+				rowOf[x] = before + x - k
+			}
+			e, _ := at(k + size - 1)
+			if last, err := s.lastLog(); err != nil {
+				e["last"] = J{"error": err.Error()}
+			} else {
+				e["last"] = J{"ok": lrDump(last)}
+			}
+		}
+		k += size
+	}
+	for _, jsonb := range []bool{false, true} {
+		s.t.jsonb = jsonb
+		var prevCore *ledger.ChainedLog
+		for k := 0; k < n; k++ {
+			e, cl := at(k)
+			if rowOf[k] < 0 {
+				prevCore = cl
+				continue
+			}
+			core, err := s.t.lsCore(rowOf[k])
+			var r J
+			if err != nil {
+				r = J{"panic": err.Error()}
+				prevCore = cl
+			} else {
+				re := lrGuard(func() J { return J{"h": hex.EncodeToString(core.Log.ChainLog(prevCore).Hash)} })
+				r = J{"ok": lrDump(core), "rehash": re["h"]}
+				prevCore = core
+			}
+			if jsonb {
+				e["row_jsonb"] = r
+			} else {
+				r["data"] = s.t.rows[rowOf[k]].text("data")
+				r["cols"] = s.t.lsColsJ(rowOf[k])
+				e["row"] = r
+			}
+		}
+	}
+	s.t.jsonb = false
+	lastWith := map[string]int{}
+	for k := 0; k < n; k++ {
+		if _, cl := at(k); rowOf[k] >= 0 && cl.IdempotencyKey != "" {
+			lastWith[cl.IdempotencyKey] = k
+		}
+	}
+	for key, k := range lastWith {
+		e, _ := at(k)
+		if strings.ContainsRune(key, 0) {
+			e["bykey"] = J{"skipped": "a NUL character cannot be written in an SQL literal (nor stored by PostgreSQL)"}
+			continue
+		}
+		if got, err := s.byKey(key); err != nil {
+			e["bykey"] = J{"error": err.Error()}
+		} else {
+			e["bykey"] = J{"ok": lrDump(got)}
+		}
+	}
+	// GetLogs: the whole table in one page, newest first
+	nStored := 0
+	for k := 0; k < n; k++ {
+		if rowOf[k] >= 0 {
+			nStored++
+		}
+	}
+	excluded := false // a chain with an entry outside "logs the system writes" (a transaction id beyond uint64): Logs.ToCore panics on that row, and with it the page
+	if specs, ok := in["logs"].([]any); ok {
+		for _, sp := range specs {
+			if m, ok := sp.(map[string]any); ok && m["excluded"] != nil {
+				excluded = true
+			}
+		}
+	}
+	if nStored > 0 && excluded {
+		for k := 0; k < n; k++ {
+			if e, _ := at(k); rowOf[k] >= 0 {
+				e["listed"] = J{"skipped": "the chain holds an excluded entry"}
+			}
+		}
+	} else if nStored > 0 {
+		page, err := s.list(uint64(nStored + 5))
+		pos := 0
+		for k := n - 1; k >= 0; k-- {
+			if rowOf[k] < 0 {
+				continue
+			}
+			e, _ := at(k)
+			switch {
+			case err != nil:
+				e["listed"] = J{"error": err.Error()}
+			case len(page) != nStored:
+				e["listed"] = J{"error": fmt.Sprintf("GetLogs lists %d entries, %d are stored", len(page), nStored)}
+			default:
+				e["listed"] = J{"ok": lrDump(&page[pos])}
+			}
+			pos++
+		}
+	}
+	if len(s.t.refused) > 0 && n > 0 {
+		e, _ := at(n - 1)
+		e["table_refused"] = s.t.refused
+	}
+}
+
+// lrKeyBytes: what becomes of a metadata key sent as raw bytes in the request line
+func lrKeyBytes(key []byte, pos string) J {
+	out := J{"valid_utf8": utf8.Valid(key)}
+	addr, sent := []byte("a"), key
+	if pos == "address" { // the bytes are the account address, the key is plain
+		addr, key = key, []byte("k")
+	}
+	fl := &fakeLedger{}
+	router := v2.NewRouter(&fakeBackend{l: fl}, &health.HealthController{}, metrics.NewNoOpRegistry(), auth.NewNoAuth())
+	raw := append(append([]byte("DELETE /l/accounts/"), addr...), []byte("/metadata/")...)
+	raw = append(raw, key...)
+	raw = append(raw, []byte(" HTTP/1.1\r\nHost: x\r\n\r\n")...)
+	req, err := http.ReadRequest(bufio.NewReader(bytes.NewReader(raw)))
+	if err != nil {
+		out["request"] = "refused by net/http: " + err.Error()
+		return out
+	}
+	rec := httptest.NewRecorder()
+	router.ServeHTTP(rec, req)
+	out["status"] = rec.Code
+	var got *writeCall
+	fl.mu.Lock()
+	for i := range fl.writes {
+		if fl.writes[i].Kind == "deletemeta" {
+			got = &fl.writes[i]
+		}
+	}
+	fl.mu.Unlock()
+	if got == nil {
+		out["reached_backend"] = false
+		return out
+	}
+	out["reached_backend"] = true
+	gotAddr, _ := got.TID.(string)
+	at := got.Key
+	if pos == "address" {
+		at = gotAddr
+	}
+	out["at_backend_hex"] = hex.EncodeToString([]byte(at))
+	out["at_backend_is_the_bytes_sent"] = at == string(sent)
+	out["at_backend_valid_utf8"] = utf8.ValidString(at)
+	// the commander writes the key into a DELETE_METADATA log; the store writes the log; a reader re-verifies it
+	cl := ledger.NewDeleteMetadataLog(ledger.Now(), ledger.DeleteMetadataLogPayload{TargetType: ledger.MetaTargetTypeAccount, TargetID: gotAddr, Key: got.Key}).ChainLog(nil)
+	st := lsOpen()
+	defer st.close()
+	if err := st.insert(cl); err != nil {
+		out["insert"] = err.Error()
+		return out
+	}
+	out["data_column"] = st.t.rows[0].text("data")
+	core, err := st.t.lsCore(0)
+	if err != nil {
+		out["read_back"] = err.Error()
+		return out
+	}
+	p, _ := core.Data.(ledger.DeleteMetadataLogPayload)
+	back := p.Key
+	if pos == "address" {
+		back = fmt.Sprint(p.TargetID)
+	}
+	out["read_back_hex"] = hex.EncodeToString([]byte(back))
+	out["read_back_same"] = back == at
+	out["rehash_same"] = hex.EncodeToString(core.Log.ChainLog(nil).Hash) == hex.EncodeToString(cl.Hash)
+	return out
 }
 
 func execLogrt(in J) J {
@@ -812,6 +1075,14 @@ func execLogrt(in J) J {
 			out["dec"] = dec
 		}
 		return out
+	case "keybytes":
+		s, _ := in["hex"].(string)
+		b, err := hex.DecodeString(s)
+		if err != nil {
+			panic("harness: bad hex")
+		}
+		pos, _ := in["pos"].(string)
+		return lrKeyBytes(b, pos)
 	case "sha":
 		s, _ := in["hex"].(string)
 		b, err := hex.DecodeString(s)
